@@ -34,14 +34,10 @@ func (o *Ob) Forced(fn *ssa.Function, key, what string, effect func(ssa.Instruct
 		// second chance: every continuation after a branch asserting the first assumption passes the effect
 		var bad []*ssa.Return
 		n := 0
-		for _, b := range fn.Blocks {
-			for si := range b.Succs {
-				if l, ok := o.E.EdgeLit(b, si); ok && assume[0].F(l) {
-					n++
-					rr := w.FromEdge(b, si)
-					bad = append(bad, rr.Returns()...)
-				}
-			}
+		for _, ec := range o.E.EdgesAsserting(fn, assume[0]) {
+			n++
+			rr := w.FromEdgeCtx(ec)
+			bad = append(bad, rr.Returns()...)
 		}
 		if n > 0 {
 			rets = bad
